@@ -321,7 +321,8 @@ class ColsV:
         if len(items) == 2 and isinstance(items[0], SliceV) and items[0].lo is None and items[0].hi is None and is_sym(items[1]) and items[1].is_Integer:
             k = int(items[1])
             if not -len(self.fields) <= k < len(self.fields):
-                raise ev.err("record field index out of range", n, mod)
+                from .sym import RaisedV
+                raise RaisedV("IndexError", f"{mod.rel}:{getattr(n, 'lineno', 0)}" if mod else "")
             return self.fields[k]
         raise ev.err("unsupported index into an array of records", n, mod)
 
